@@ -370,6 +370,7 @@ class Contract:
         self.opaque_calls: List[str] = []      # callee qualnames never inlined even without contract (=> Unsupported)
         self.touch: List[str] = []             # parameter names whose class axioms are instantiated at entry
         self.max_paths: int = 4000
+        self.seq_filter: bool = False      # filter comprehensions over seq lists yield a seq list (membership axioms)
         self.timeout_factor: float = 1.0   # solver budget multiplier for quantifier-heavy contracts
         self.notes: str = ""
         self.xval: Optional[Callable[..., Any]] = None  # generator of native inputs for cross-validation
@@ -395,8 +396,8 @@ def contract(target: str, **kw: Any) -> Contract:
     return c
 
 
-def requires(c: Contract, label: str, fn: Callable[..., Any], tags: Sequence[str] = ()) -> None:
-    c.requires.append(Clause(label, fn, tags))
+def requires(c: Contract, label: str, fn: Callable[..., Any], tags: Sequence[str] = (), note: str = "") -> None:
+    c.requires.append(Clause(label, fn, tags, note=note))
 
 
 def assumes(c: Contract, label: str, fn: Callable[..., Any]) -> None:
